@@ -15,9 +15,9 @@ SIG = (
 )
 
 
-def build(n, k, s1, r1, s2, r2, t2, sig):
+def build(n, k, s1, r1, s2, r2, t2, sig, s3=0, r3=0):
     s = AnsiString(TEXT[:n])
-    for (sel, rng, top, on) in ((s1, r1, True, k >= 1), (s2, r2, t2, k >= 2)):
+    for (sel, rng, top, on) in ((s1, r1, True, k >= 1), (s2, r2, t2, k >= 2), (s3, r3, True, k >= 3)):
         if not on:
             continue
         st = choose(sel, sig)
@@ -35,6 +35,16 @@ def valid_text(t):
 
 def h_roundtrip(n: int, k: int, s1: int, r1: int, s2: int, r2: int, t2: bool, nsig: int = len(SIG)):
     s = build(n, k, s1, r1, s2, r2, t2, SIG[:nsig])
+    return _roundtrip(s, n)
+
+
+def h_roundtrip3(n: int, s1: int, r1: int, s2: int, r2: int, s3: int, r3: int):
+    """Three apply steps (thorough)."""
+    s = build(n, 3, s1, r1, s2, r2, True, SIG, s3, r3)
+    return _roundtrip(s, n)
+
+
+def _roundtrip(s, n):
     if s is None:
         return None
     t = s.base_str
@@ -154,7 +164,7 @@ def h_sweep(f: int, y: int, shape: int):
 BOUNDS = {
     'quick': 'values from <=2 apply steps at n=2 over a 14-setting alphabet (named, clear codes, 256/24-bit colours, ul_rgb pair, unknown verbatim 99, '
              'multi-group verbatim 1;31, invalid verbatim 1m, trailing-separator verbatim, AnsiSetting object), all canonical ranges, topmost both; 1 step at n=3; free SGR code 0..256 against 13 representative codes in 4 span shapes',
-    'thorough': '2 apply steps at n=3',
+    'thorough': '2 apply steps at n=3; 3 apply steps at n=2',
 }
 OUTSIDE = 'base texts containing ESC; values needing more builder steps; settings outside the alphabet'
 ASSUMPTIONS = ['effective style of a value with invalid settings = effective style of its valid settings (invalid ones cannot be rendered well-formed)']
@@ -177,4 +187,7 @@ def obligations(tier):
             for r1 in range(len(ranges(3))):
                 obs.append(Ob('roundtrip/b2/n3/s%d/r%d' % (s1, r1), h_roundtrip, dict(n=3, k=2, s1=s1, r1=r1), need=('simplified',), budget=3000,
                               bounds='n=3, 2 apply steps', kinds=KINDS))
+            for r1 in range(len(ranges(2))):
+                obs.append(Ob('roundtrip/b3/n2/s%d/r%d' % (s1, r1), h_roundtrip3, dict(n=2, s1=s1, r1=r1), need=('simplified',), budget=3000,
+                              bounds='n=2, 3 apply steps over the 14-setting alphabet', kinds=KINDS))
     return obs
